@@ -287,6 +287,8 @@ def grad_diff(ans, a, n=1, axis=-1):
             return g
         return helper(undiff(g), n - 1)
 
+    if ans_shape[axis] == 0:  # n exceeds the length: the (empty) result does not depend on a
+        return lambda g: vspace(a).zeros()
     return lambda g: helper(g, n)
 
 
